@@ -114,6 +114,9 @@ class Synth(object):
                     self.row('S_IRDT', DT_ID=did, isSet=is_set, Obj_ID=self.obj[c['kl']])
         for r in d.get('rels', []):
             self.rel(r)
+        for c in d['classes']:
+            for sm in c.get('sms', []):
+                self.state_machine(c, sm)
         for f in d.get('funcs', []):
             self.func(f)
         for e in d.get('ees', []):
@@ -270,6 +273,46 @@ class Synth(object):
                 self.row('R_RGO', Obj_ID=self.obj[s], Rel_ID=rid, OIR_ID=bo)
                 self.row('R_SUB', Obj_ID=self.obj[s], Rel_ID=rid, OIR_ID=bo)
                 self.refs(rid, s, bo, r['sup'], so, 0, r['keys'][s])
+
+    def state_machine(self, c, sm):
+        """an instance ('inst') or class based ('class') state machine of class c: events with their data items, states,
+        one transition into every state that names the event it is taken on (`via`), a state action per state"""
+        kl = c['kl']
+        smid = self.id()
+        spd = self.id()
+        self.row('SM_SM', SM_ID=smid, Descrip='', Config_ID=0)
+        self.row('SM_ISM' if sm['kind'] == 'inst' else 'SM_ASM', SM_ID=smid, Obj_ID=self.obj[kl])
+        self.row('SM_SUPDT', SMspd_ID=spd, SM_ID=smid, Non_Local=False)
+        evt = {}
+        for e in sm['events']:
+            eid = self.id()
+            evt[e['numb']] = eid
+            label = '%s%s%d' % (kl, '_A' if sm['kind'] == 'class' else '', e['numb'])
+            self.row('SM_EVT', SMevt_ID=eid, SM_ID=smid, SMspd_ID=spd, Numb=e['numb'], Mning=e['mning'], Is_Lbl_U=0, Unq_Lbl='',
+                     Drv_Lbl=label, Descrip='')
+            self.row('SM_SEVT', SMevt_ID=eid, SM_ID=smid, SMspd_ID=spd)
+            self.row('SM_LEVT', SMevt_ID=eid, SM_ID=smid, SMspd_ID=spd)
+            prev = 0
+            for di in e.get('data', []):
+                did = self.id()
+                self.row('SM_EVTDI', SMedi_ID=did, SM_ID=smid, Name=di['n'], Descrip='', DT_ID=self.type_id(di['ty']), Dimensions='',
+                         SMevt_ID=eid, Previous_SMedi_ID=prev)
+                prev = did
+        first = None
+        for st in sm.get('states', []):
+            sid = self.id()
+            first = first or sid
+            self.row('SM_STATE', SMstt_ID=sid, SM_ID=smid, SMspd_ID=spd, Name=st['n'], Numb=st['numb'], Final=0)
+            aid = self.id()
+            self.row('SM_ACT', Act_ID=aid, SM_ID=smid, Suc_Pars=1, Action_Semantics_internal=st.get('body', ''), Descrip='', Dialect=0)
+            self.row('SM_AH', Act_ID=aid, SM_ID=smid)
+            self.row('SM_MOAH', Act_ID=aid, SM_ID=smid, SMstt_ID=sid)
+            if st.get('via') is not None:
+                # the transition into the state, taken from the first state on event `via`
+                tid = self.id()
+                self.row('SM_SEME', SMstt_ID=first, SMevt_ID=evt[st['via']], SM_ID=smid, SMspd_ID=spd)
+                self.row('SM_TXN', Trans_ID=tid, SM_ID=smid, SMstt_ID=sid, SMspd_ID=spd)
+                self.row('SM_NSTXN', Trans_ID=tid, SM_ID=smid, SMstt_ID=first, SMevt_ID=evt[st['via']], SMspd_ID=spd)
 
     def func(self, f):
         sid = self.id()
